@@ -326,7 +326,29 @@ def r20_8(ctx):
     ctx.ob("R20.8", "text-merges-into-the-node-before-the-sibling", bad is None and k >= 1, bad or "%d merge attempts, all into children[index of sibling - 1]" % k, "rcdom RcDom::append_before_sibling")
 
 
+def r20_9(ctx):
+    """clone_an_option_into_selectedcontent(selectedcontent): 'replace all' - on EVERY path the old children of selectedcontent are
+    taken out (and lose their parent link) and the clones of the option's children are put in their place; an option without
+    children still empties the target"""
+    key, pcs = nfq.cells(ctx, AREA, "::clone_an_option_into_selectedcontent")
+    bad = None
+    k = 0
+    for pc in nfq.feasible(pcs):
+        names = nfq.names(pc)
+        if "panic!" in names:
+            continue
+        k += 1
+        repl = [a for a in names if a in ("replace p1.children", "take p1.children", "assign p1.children", "set p1.children")]
+        if len(repl) != 1:
+            bad = "a path (%s) does not replace the children of the target element: stale content survives when the selected option is empty" % [g[:50] for g, v in pc["guards"].items() if v][:2]
+        elif not any(x.endswith(".parent.set(None)") for x in nfq.texts(pc)):
+            bad = "the removed children keep their parent link"
+    ctx.ob("R20.9", "selectedcontent-is-replaced-on-every-path", bad is None and k >= 1, bad or "%d path(s): old children removed (parent := None), clones installed" % k, "rcdom Node::clone_an_option_into_selectedcontent")
+
+
 def run(ctx):
+    ctx.rule("R20.9", "cloning an option into selectedcontent replaces all of the target's children on every path")
+    ctx.guard("R20.9", "replace-all", lambda: r20_9(ctx))
     ctx.rule("R20.8", "append_before_sibling merges text only into the node directly before the sibling")
     ctx.guard("R20.8", "merge-target", lambda: r20_8(ctx))
     ctx.rule("R20.7", "append_based_on_parent_node: before the element iff it has any parent, else under the previous element")
